@@ -399,6 +399,11 @@ func (ex *Exec) finishRoot(fr *Frame, pre *State) {
 			if seen[k] || seen[sr.Ref+typeKey(types.NewPointer(sr.T))] {
 				continue
 			}
+			if ex.isFreshTerm(sr.Ref) {
+				// objects created by this call are checked when they are returned (results); one that is
+				// dropped on an error path is unreachable afterwards
+				continue
+			}
 			seen[k] = true
 			ex.checkTypeInvUnder(fr, st, Val{T: types.NewPointer(sr.T), L: []string{sr.Ref}}, "@written", fn.Pos(), sr.PC)
 		}
@@ -861,6 +866,10 @@ func (ex *Exec) applyContract(fr *Frame, st *State, fn *ssa.Function, ct *FuncCo
 		}
 	} else if !ct.Pure {
 		keys, top := ex.modSet(fn)
+		if ex.assignsActive() && (top || len(keys) > 0) {
+			// the caller promises a frame but the callee's write set is only known syntactically
+			ex.obligeHere(st, "assigns", "callee-without-modifies:"+key, "false", "a function with a modifies clause calls "+key+", whose contract has no modifies clause")
+		}
 		if top {
 			ex.havocAll(st, "callee "+key+" may call unknown functions")
 		} else {
@@ -930,8 +939,18 @@ func (ex *Exec) checkCallSites(fr *Frame, st *State, callee string, args []Val, 
 	if root == nil || root.ct == nil {
 		return
 	}
+	ex.callOrdinal[callee]++
+	ord := ex.callOrdinal[callee]
 	for _, cs := range root.ct.CallSites {
-		if cs.Callee != callee && !strings.HasSuffix(cs.Callee, "."+callee) {
+		want := cs.Callee
+		if k := strings.LastIndex(want, "#"); k >= 0 {
+			// "callee#n": only the n-th call of callee (in symbolic execution order) is constrained
+			if want[k+1:] != fmt.Sprint(ord) {
+				continue
+			}
+			want = want[:k]
+		}
+		if want != callee && !strings.HasSuffix(want, "."+callee) {
 			continue
 		}
 		vars := map[string]Val{}
@@ -940,6 +959,10 @@ func (ex *Exec) checkCallSites(fr *Frame, st *State, callee string, args []Val, 
 		}
 		for i, a := range args {
 			vars[fmt.Sprintf("arg%d", i)] = a
+		}
+		vars["sig_ok"], vars["aead_ok"] = boolVal("false"), boolVal("false")
+		for k, v := range ex.ghostVars {
+			vars[k] = v
 		}
 		en := ex.newEnv(root, st, ex.preState, vars)
 		en.pos = pos
@@ -1229,6 +1252,8 @@ func (ex *Exec) loopMods(fr *Frame, li *loopInfo) (keys []string, top bool, regs
 
 // ---------- solving ----------
 
+var queryMu sync.Mutex
+
 type solveCfg struct {
 	outDir   string
 	timeout  time.Duration
@@ -1389,21 +1414,75 @@ func solveOne(ex *Exec, o *Obligation, cfg *solveCfg) {
 		return
 	}
 	base := cfg.outDir + "/" + safeName(o.Name)
+	queryMu.Lock()
 	z3text, _ := ex.queryText(o, false)
+	ctext, cok := ex.queryText(o, true)
+	queryMu.Unlock()
 	z3file := base + ".smt2"
 	_ = writeFileMkdir(z3file, []byte(z3text))
 	o.SMTFile = z3file
 	cvcfile := ""
-	if ctext, ok := ex.queryText(o, true); ok {
+	if cok {
 		cvcfile = base + ".cvc5.smt2"
 		_ = writeFileMkdir(cvcfile, []byte(ctext))
 	}
 	t0 := time.Now()
-	// first a quick attempt with the newest z3, then the race
+	// first a quick attempt on the relevance-pruned query (unsat there is a valid proof), then the full query
 	var best SolverResult
 	var all []SolverResult
-	r := runSolver(contextBackground(), "z3-5.1.0", "z3-new", z3file, cfg.first)
-	all = append(all, r)
+	var r SolverResult
+	if o.Cover {
+		// vacuity guard: "unsat" on the relevance-pruned query is definite (fewer assumptions);
+		// "sat" there shows that the assumptions the path condition depends on are consistent.
+		queryMu.Lock()
+		var cmds []string
+		for _, c := range ex.cmds[:o.Prefix] {
+			cmds = append(cmds, c.Z3)
+		}
+		goal := "(assert " + o.PC + ")"
+		ptxt := pruneQuery(ex.preamble, cmds, goal, 3) + goal + "\n(check-sat)\n"
+		queryMu.Unlock()
+		pfile := base + ".pruned.smt2"
+		_ = writeFileMkdir(pfile, []byte(ptxt))
+		pr, pall := raceSolvers(pfile, "", cfg.first, "z3")
+		cfg.stats.add(pall, pr)
+		o.Solver = pr.Solver
+		o.Seconds = time.Since(t0).Seconds()
+		o.SMTFile = pfile
+		switch pr.Status {
+		case "unsat":
+			o.Status = "vacuous"
+			o.Raw = pr.Out
+			return
+		case "sat":
+			o.Status = "covered"
+			return
+		}
+	}
+	if !o.Cover {
+		queryMu.Lock()
+		var cmds []string
+		for _, c := range ex.cmds[:o.Prefix] {
+			cmds = append(cmds, c.Z3)
+		}
+		goal := "(assert " + and(o.PC, not(o.Cond)) + ")"
+		ptxt := pruneQuery(ex.preamble, cmds, goal, 1) + goal + "\n(check-sat)\n"
+		queryMu.Unlock()
+		pfile := base + ".pruned.smt2"
+		_ = writeFileMkdir(pfile, []byte(ptxt))
+		pr, pall := raceSolvers(pfile, "", cfg.first, "z3-5")
+		all = append(all, pall...)
+		if pr.Status == "unsat" {
+			cfg.stats.add(all, pr)
+			o.Solver = pr.Solver + " (pruned query)"
+			o.Seconds = time.Since(t0).Seconds()
+			o.Status = "proved"
+			o.SMTFile = pfile
+			return
+		}
+	}
+	r, rall := raceSolvers(z3file, "", cfg.first, "z3-5")
+	all = append(all, rall...)
 	best = r
 	if r.Status != "sat" && r.Status != "unsat" {
 		b2, a2 := raceSolvers(z3file, cvcfile, cfg.timeout, "")
@@ -1448,7 +1527,9 @@ func solveOne(ex *Exec, o *Obligation, cfg *solveCfg) {
 		// prefer a small counterexample that can be replayed
 		if sb := ex.sizeBounds(1); sb != "" {
 			for _, lim := range []uint64{64, 4096} {
+				queryMu.Lock()
 				txt, _ := ex.queryTextB(o, false, lim)
+				queryMu.Unlock()
 				f := base + fmt.Sprintf(".small%d.smt2", lim)
 				_ = writeFileMkdir(f, []byte(txt))
 				r2, _ := raceSolvers(f, "", 15*time.Second, "z3")
